@@ -12,7 +12,7 @@ import (
 )
 
 func init() {
-	Register(&Scenario{Prop: "C08", Name: "eventlog-windows", Run: scenC08, Weight: 1,
+	Register(&Scenario{Prop: "C08", Name: "eventlog-windows", Run: scenC08, SoftParks: true, Weight: 1,
 		Rule: "1-3 writer replicas of one event log; 3-12 (thorough 3-30) Add (one in four a burst of 2-3 concurrent writers, parked at the write-path points or free-running under seeded yields) interleaved with replication under faults; after every quiescent step each replica's listing must only grow and keep relative order, respect causal order; at checkpoints (listing <= 14 entries) every combination of bound kind {none,gt,gte,lt,lte} x bound position x amount {unset,0,1,2,len-1,len,len+3,-1} is compared with the model window, and Get(hash) for every entry; non-trivial = >=3 entries and >=1 window check on a listing that contains entries of two writers or >=4 entries"})
 }
 
